@@ -927,7 +927,20 @@ func (g *G) declStmt() *Node {
 // the shape common-subexpression elimination keys on; with `+` on strings and arrays, `-`, `/`
 // and the relational operators the operand order matters.
 func (g *G) cseShape(ty string) *Node {
-	if pool := g.csePool[ty]; len(pool) > 0 && g.pct("csedup", 55) {
+	// only expressions whose variables are all visible here (and still of the type they had)
+	var pool []*Node
+	for _, e := range g.csePool[ty] {
+		ok := true
+		e.Walk(func(n *Node) {
+			if n.K == "var" && g.lookup(n.S) == nil {
+				ok = false
+			}
+		})
+		if ok {
+			pool = append(pool, e)
+		}
+	}
+	if len(pool) > 0 && g.pct("csedup", 55) {
 		e := pool[g.n("csepick", len(pool))].Clone()
 		if g.pct("cseswap", 45) {
 			e.C[0], e.C[1] = e.C[1], e.C[0]
